@@ -123,6 +123,9 @@ def classification : List Class := [
   ⟨"lou_backTranslateString.c", "initStringBufferPool", "stringBuffersInUse", .poolSlots⟩,
   ⟨"lou_translateString.c", "-", "appliedRules", .resetBeforeUse "_lou_translate"⟩,
   ⟨"lou_translateString.c", "-", "appliedRulesCount", .resetBeforeUse "_lou_translate"⟩,
+  -- (the copy of the pass input a grouping action edits: its contents are read only while the pass input IS this object,
+  --  which it can only become by an assignment in replaceGrouping / removeGrouping during the same pass - F40)
+  ⟨"lou_translateString.c", "-", "groupingString", .resetBeforeUse "replaceGrouping"⟩,
   ⟨"lou_translateString.c", "-", "maxAppliedRules", .resetBeforeUse "_lou_translate"⟩,
   ⟨"lou_translateString.c", "-", "stringBufferPool", .lazyConst "initStringBufferPool"⟩,
   ⟨"lou_translateString.c", "for_selectRule", "pseudoRule", .resetBeforeUse "for_selectRule"⟩,
@@ -130,8 +133,6 @@ def classification : List Class := [
   ⟨"lou_translateString.c", "getDots", "notFound", .resetBeforeUse "getDots"⟩,
   ⟨"lou_translateString.c", "initStringBufferPool", "stringBuffers", .poolSlots⟩,
   ⟨"lou_translateString.c", "initStringBufferPool", "stringBuffersInUse", .poolSlots⟩,
-  ⟨"lou_translateString.c", "removeGrouping", "stringStore", .resetBeforeUse "removeGrouping"⟩,
-  ⟨"lou_translateString.c", "replaceGrouping", "stringStore", .resetBeforeUse "replaceGrouping"⟩,
   ⟨"maketable.c", "-", "displayTable", .otherApi "lou_suggestChunks / maketable tools"⟩,
   ⟨"maketable.c", "-", "table", .otherApi "lou_suggestChunks / maketable tools"⟩,
   ⟨"maketable.c", "isLetter", "character", .resetBeforeUse "isLetter"⟩,
